@@ -9,12 +9,12 @@ RowsB == <<<<2, -1>>, <<-3, 2>>>>
 RowsC == <<<<0, 3>>>>
 Con(cid, kind, rows, static, order, morder, model, res, rev, dict, kappa) ==
     [a |-> "con", c |-> cid, kind |-> kind, rows |-> rows, static |-> static, order |-> order, morder |-> morder,
-     model |-> model, res |-> res, rev |-> rev, dict |-> dict, kappa |-> kappa, lo |-> -1, hi |-> 2, smp |-> 0, mid |-> 0, xonly |-> FALSE]
+     model |-> model, res |-> res, rev |-> rev, dict |-> dict, kappa |-> kappa, lo |-> -1, hi |-> 2, smp |-> 0, mid |-> 0, xonly |-> FALSE, track |-> TRUE]
 \* a condition on a SHARED sampler object sid (Conditions.SDraws) and, with mid > 0, on a SHARED model object
 ConS(cid, kind, sid, static, morder, model, res, rev, dict, mid) ==
     [Con(cid, kind, <<>>, static, "xt", morder, model, res, rev, dict, 0) EXCEPT !.smp = sid, !.mid = mid]
 Ev(cid) == [a |-> "ev", c |-> cid, kind |-> "", rows |-> <<>>, static |-> FALSE, order |-> "", morder |-> "", model |-> <<>>,
-            res |-> "", rev |-> FALSE, dict |-> 0, kappa |-> 0, lo |-> 0, hi |-> 0, smp |-> 0, mid |-> 0, xonly |-> FALSE]
+            res |-> "", rev |-> FALSE, dict |-> 0, kappa |-> 0, lo |-> 0, hi |-> 0, smp |-> 0, mid |-> 0, xonly |-> FALSE, track |-> TRUE]
 \* what Solver.on_train_start does with every condition (static data is moved to the training device)
 Mv == [Ev(0) EXCEPT !.a = "mv"]
 KindsFor(res) == IF res \in {"per", "per0", "per_d"} THEN {"periodic"} ELSE IF res = "vec" THEN {"pinn"} ELSE {"pinn", "mean"}
@@ -45,8 +45,12 @@ Cands == << Con(1, "pinn", RowsA, TRUE, "xt", "xt", <<2, -1, 3>>, "u_f", FALSE, 
             \* sample x only (their rows carry t = 0, the default) and use a model of x alone
             Con(15, "pinn", RowsA, FALSE, "xt", "xt", <<1, 2, -1>>, "u_f", FALSE, 3, 0),
             [Con(16, "pinn", <<<<2, 0>>, <<-1, 0>>, <<3, 0>>>>, FALSE, "xt", "xt", <<2, 0, 1>>, "u_f", FALSE, 3, 0) EXCEPT !.xonly = TRUE],
-            [Con(17, "mean", <<<<1, 0>>, <<-2, 0>>>>, TRUE, "xt", "xt", <<-1, 0, 2>>, "u_f", TRUE, 3, 0) EXCEPT !.xonly = TRUE] >>
-NC == 17
+            [Con(17, "mean", <<<<1, 0>>, <<-2, 0>>>>, TRUE, "xt", "xt", <<-1, 0, 2>>, "u_f", TRUE, 3, 0) EXCEPT !.xonly = TRUE],
+            \* 18: a condition built with track_gradients = False (no derivatives in its residual); 19, 20: residuals with derivatives
+            [Con(18, "pinn", RowsB, FALSE, "xt", "xt", <<1, -1, 2>>, "echo", FALSE, 0, 0) EXCEPT !.track = FALSE],
+            Con(19, "periodic", RowsA, FALSE, "xt", "xt", <<2, 1, -1>>, "per_d", FALSE, 0, 0),
+            Con(20, "pinn", RowsC, FALSE, "tx", "xt", <<3, -2, 1>>, "ux_t", TRUE, 0, 0) >>
+NC == 20
 Init == built = {} /\ evs = [i \in 1..NC |-> 0] /\ hist = <<>>
 Next == /\ Len(hist) < MaxOps
         /\ \/ \E i \in 1..NC : i \notin built /\ Cardinality(built) < 3 /\ built' = built \cup {i} /\ hist' = Append(hist, Cands[i]) /\ UNCHANGED evs
